@@ -1386,13 +1386,15 @@ HTInew_dd_block(filerec_t *file_rec)
 
     if (file_rec->cache)                 /* if we are caching, wait to update previous DD block */
         file_rec->dirty |= DDLIST_DIRTY; /* indicate file needs to be flushed */
-    else {
-        p = ddhead;
-        INT16ENCODE(p, block->ndds);
-        INT32ENCODE(p, (int32)0);
-        if (HP_write(file_rec, ddhead, NDDS_SZ + OFFSET_SZ) == FAIL)
-            HGOTO_ERROR(DFE_WRITEERROR, FAIL);
-    } /* end else */
+
+    /* Put a complete, empty block (header + NIL descriptors) in the file right
+       away, whether or not DD caching is on: the block must be valid on disk
+       before the previous block is made to point to it. */
+    p = ddhead;
+    INT16ENCODE(p, block->ndds);
+    INT32ENCODE(p, (int32)0);
+    if (HP_write(file_rec, ddhead, NDDS_SZ + OFFSET_SZ) == FAIL)
+        HGOTO_ERROR(DFE_WRITEERROR, FAIL);
 
     /* set up the dd list of this dd block and put it in the file
      after the dd block header */
@@ -1408,8 +1410,8 @@ HTInew_dd_block(filerec_t *file_rec)
     list[0].blk    = block;
     HDmemfill(&list[1], &list[0], sizeof(dd_t), (uint32)ndds - 1);
 
-    if (file_rec->cache != 0) { /* if we are caching, wait to update previous DD block */
-        uint8 *tbuf;            /* temporary buffer */
+    { /* write the NIL descriptors after the header (in both caching modes) */
+        uint8 *tbuf; /* temporary buffer */
 
         tbuf = (uint8 *)malloc((size_t)(ndds * DD_SZ));
         if (tbuf == (uint8 *)NULL)
